@@ -32,6 +32,7 @@ import Driver.ConnRead
 import Driver.X509Names
 import Driver.KeyType
 import Driver.TemplateReuse
+import Driver.CRLIssuer
 open Gmsm
 
 def dispatch (toks : List String) : String :=
@@ -102,6 +103,9 @@ def dispatch (toks : List String) : String :=
     | some r => r
     | none =>
     match Driver.templateReuseDispatch toks with
+    | some r => r
+    | none =>
+    match Driver.crlIssuerDispatch toks with
     | some r => r
     | none =>
     match toks with
